@@ -331,9 +331,17 @@ type c05case struct {
 	seen   map[string]bool
 	report func(key, what string, extra map[string]interface{})
 	sample map[string]interface{}
+	prefix string // prepended to violation keys (phase of the case, e.g. "pending-writes/")
+	cur    string          // identity of the probe being judged
+	failed map[string]bool // probes for which something was reported
 }
 
 func (c *c05case) rep(key, what string, extra map[string]interface{}) {
+	key = c.prefix + key
+	if c.failed == nil {
+		c.failed = map[string]bool{}
+	}
+	c.failed[c.cur] = true
 	if c.seen[key] { // one witness per signature per case
 		c.counts["suppressed_repeat_reports"]++
 		return
@@ -450,6 +458,7 @@ func runC05Case(r *rand.Rand, c *c05case, mutBudget int) {
 		c.counts["cases_reopened"]++
 	}
 	prt := rootmulti.DefaultProofRuntime()
+	latestProbes := map[int][]c05probe{}
 	for h := int64(1); h <= ref.Latest; h++ {
 		root := ref.CID[h].Hash
 		for s := 0; s < pl.cfg.NStores; s++ {
@@ -457,6 +466,9 @@ func runC05Case(r *rand.Rand, c *c05case, mutBudget int) {
 			c.max("max_tree_size", int64(len(m)))
 			c.counts[fmt.Sprintf("trees_size_%s", c05sizeClass(len(m)))]++
 			probes := c05probes(r, m, pl.universe[s])
+			if h == ref.Latest {
+				latestProbes[s] = probes
+			}
 			// which probes also get the full mutation treatment
 			mutate := make([]bool, len(probes))
 			if len(probes) <= mutBudget {
@@ -492,9 +504,45 @@ func runC05Case(r *rand.Rand, c *c05case, mutBudget int) {
 				}
 			}
 			for i, p := range probes {
+				c.cur = fmt.Sprintf("%d/%d/%x", h, s, p.key)
 				c05probeOne(r, c, prt, node, ref, h, s, root, m, p, mutate[i])
 			}
 		}
+	}
+	// Phase 2: the next block's writes are applied to the working stores but NOT committed (on a live node DeliverTx
+	// writes go straight into the working trees while queries are being served). Proofs for the latest committed
+	// version must still be that version's proofs.
+	if ref.Latest >= 1 && len(pl.blocks) > 0 {
+		pend, _ := genBlocks(r, pl.cfg.NStores, 1, false)
+		extra := pend[0]
+		for i := 0; i < 6; i++ { // make sure every store has pending sets and deletes
+			st := r.Intn(pl.cfg.NStores)
+			u := pl.universe[st]
+			k := u[r.Intn(len(u))]
+			if i%2 == 0 {
+				extra.Ops = append(extra.Ops, msOp{S: st, K: k, V: []byte(fmt.Sprintf("pending%d", i))})
+			} else {
+				extra.Ops = append(extra.Ops, msOp{S: st, Del: true, K: k})
+			}
+		}
+		extra.ViaCache = false
+		node.write(extra)
+		c.log = append(c.log, "pending (uncommitted) writes: "+fmt.Sprint(extra.Strings()))
+		c.prefix = "pending-writes/"
+		h := ref.Latest
+		for s := 0; s < pl.cfg.NStores; s++ {
+			m := ref.Ver[h][s]
+			for _, p := range latestProbes[s] { // the very same probes as in phase 1
+				c.cur = fmt.Sprintf("%d/%d/%x", h, s, p.key)
+				if c.failed[c.cur] {
+					continue // this very probe already fails without pending writes (reported in phase 1)
+				}
+				c.cur = "pending:" + c.cur
+				c05probeOne(r, c, prt, node, ref, h, s, ref.CID[h].Hash, m, p, false)
+				c.counts["probes_with_pending_writes"]++
+			}
+		}
+		c.prefix = ""
 	}
 }
 
